@@ -47,7 +47,13 @@ META = {
     "and maybe_int move a value by less than their tolerance in every branch (reciprocal branch included), so the image of a "
     "point moves by at most stol*|u| + tol*|v| + ttol source pixels.  Different-CRS footprints: the arithmetic of "
     "footprint(crs, buffer, npoints) (pad = buffer pixels of the coarser axis, also on mirrored rasters; densification = "
-    "longer side / npoints) is modelled and tied; pyproj / shapely stay parameters.",
+    "longer side / npoints) is modelled and tied; pyproj / shapely stay parameters.  Final increment: the parameterised "
+    "branches of the PUBLIC grid_intersect (different CRSs, non-linear base) are the general path with the model's ranges "
+    "(Props/C12GiParam: grid_intersect_param_complete, grid_intersect_cross_crs_cases); intercept-free tie of the "
+    "different-CRS pipeline (cross_pipeline): footprint(4326, 2) of every raster equals the geometry built from the model's "
+    "pad / densification numbers, grid_intersect equals the composition of the public calls the model prescribes on 26 "
+    "overlapping and 26 really disjoint cross-CRS pairs (early {}), and a GCPGeoBox extent's bounding box contains every "
+    "boundary pixel corner.",
     "note": "Trusted: Lean kernel + {propext, Classical.choice, Quot.sound}; shapely predicates and pyproj are "
     "parameters (general path: completeness under the footprint-superset hypothesis, `_partial`; cross-CRS pairs are "
     "sampled by the oracle only, threshold 0.5 px^2); same-CRS oracle: overlap > 1e-6 source px^2 and, on the linear "
